@@ -28,7 +28,6 @@ Part C  one link with the background "remove old output" task held back until th
 import itertools
 import json
 import os
-import select
 import shutil
 import stat
 import subprocess
@@ -37,6 +36,7 @@ import time
 
 sys.path.insert(0, os.path.join(os.path.dirname(os.path.abspath(__file__)), "..", "lib"))
 import vlib
+from liverun import spawn_wild, wait_all_exited, run_wild
 
 # ------------------------------------------------------------------------------------------------
 # Programs
@@ -237,56 +237,6 @@ def diff_snap(before, after, ignore_dir_mtime_of=()):
             elif b[1] != a[1]:
                 out.append((p, "mode", f"{oct(b[1])} => {oct(a[1])}"))
     return out
-
-
-# ------------------------------------------------------------------------------------------------
-# Running wild as a real process and waiting until every process it forked has exited
-
-def clean_env(extra):
-    env = {k: v for k, v in os.environ.items()
-           if not k.startswith("WILD_") and k not in ("MAKEFLAGS", "CARGO_MAKEFLAGS", "TMPDIR")}
-    env["RUST_BACKTRACE"] = "0"
-    env.update(extra)
-    return env
-
-
-def spawn_wild(argv, cwd, env):
-    """Start wild. Returns (Popen, fd) where fd reaches EOF once wild and all descendants exited."""
-    r, w = os.pipe()
-    p = subprocess.Popen([vlib.WILD, *argv], cwd=cwd, env=clean_env(env),
-                         stdin=subprocess.DEVNULL, stdout=subprocess.PIPE, stderr=subprocess.PIPE,
-                         pass_fds=(w,))
-    os.close(w)
-    return p, r
-
-
-def wait_all_exited(fd, timeout):
-    """Wait for EOF on the liveness pipe. Returns True if every holder exited in time."""
-    deadline = time.time() + timeout
-    try:
-        while True:
-            left = deadline - time.time()
-            if left <= 0:
-                return False
-            rl, _, _ = select.select([fd], [], [], left)
-            if rl and os.read(fd, 4096) == b"":
-                return True
-    finally:
-        os.close(fd)
-
-
-def run_wild(argv, cwd, env, timeout=90):
-    p, fd = spawn_wild(argv, cwd, env)
-    try:
-        out, err = p.communicate(timeout=timeout)
-    except subprocess.TimeoutExpired:
-        p.kill()
-        out, err = p.communicate()
-        os.close(fd)
-        return "timeout", out, err
-    if not wait_all_exited(fd, timeout):
-        return "descendant-timeout", out, err
-    return p.returncode, out, err
 
 
 # ------------------------------------------------------------------------------------------------
